@@ -76,8 +76,10 @@ func validateIssueTokenBaseFee(i interface{}) error {
 	if !ok {
 		return fmt.Errorf("invalid parameter type: %T", i)
 	}
-	if v.IsNegative() {
-		return fmt.Errorf("base fee for issuing token should not be negative")
+	// Validate also rejects an unset coin and a malformed denom, on which the
+	// fee handling of IssueToken/MintToken would otherwise abort
+	if err := v.Validate(); err != nil {
+		return fmt.Errorf("invalid base fee for issuing token: %w", err)
 	}
 	return nil
 }
